@@ -473,5 +473,79 @@ def u_reconstruct():
                              "walk.index(v) returns some occurrence of v (the first one in python; irrelevant for the multiset of pairs)"])
 
 
+def u_solution_walks():
+    """get_solution_walks: the glue between the solver values and the two functions above.
+    ensures: one entry per layer 0..k-1, in order; entry i is what _reconstruct_eulerian_walk returns for the residual graph of layer i (or [] when
+    that residual graph is empty as a dict); the edge values are fetched from the solver once, only if none are cached, and for exactly edge_vars."""
+    st = {}
+
+    def inv(ns, seq, done):
+        w, d = ns["walks"], lift(done)
+        j = z3.Int("jw")
+        if not isinstance(w, SymSeq):
+            return {"one-walk-per-layer-so-far": z3.BoolVal(len(w) == 0) if True else None, "no-layer-yet": d == 0}
+        return {"one-walk-per-layer-so-far,-walk-i-is-the-reconstruction-of-layer-i": z3.And(w.n == d, z3.ForAll([j], z3.Implies(z3.And(j >= 0, j < d), lift(w._at(j)) == st["want"](j))))}
+
+    def mk(cached):
+        def h(c, f):
+            class Me(Tracked):
+                pass
+            me = Me()
+            k = c.fresh_const("k", INT)
+            c.assume(k >= 0)
+            WALK = z3.Function("reconstructed_walk_id_of_layer", INT, INT)
+            EMPTY = z3.Function("residual_dict_of_layer_is_empty", INT, BOOL)
+            EMPTYWALK = c.fresh_const("the_empty_walk", INT)
+            st.update(WALK=WALK, empty=EMPTYWALK, first=True, want=lambda j: z3.If(EMPTY(j), EMPTYWALK, WALK(j)))
+            calls = []
+            me.k = Sym(k)
+
+            class Res:
+                def __init__(self, i): self.i = lift(i)
+                def __bool__(self): return bool(Sym(z3.Not(EMPTY(self.i))))
+            me._build_residual_graph_for_layer = lambda i: Res(i)
+
+            def rec(res, i):
+                c.prove("pre:the-walk-of-layer-i-is-reconstructed-from-the-residual-graph-of-layer-i", res.i == lift(i), prop=P, kind="pre")
+                return Sym(WALK(lift(i)))
+            me._reconstruct_eulerian_walk = rec
+            me.edge_vars = "EDGE-VARS"
+            me.edge_vars_sol = {("a", "b", 0): 1.0} if cached else {}
+
+            class Solver:
+                def get_values(self, vs, **kw):
+                    calls.append(vs)
+                    return {("x", "y", 0): 2.0}
+            me.solver = Solver()
+            walks = f(me)
+            c.prove("post:the-values-decoded-are-the-solver's-values-of-exactly-the-edge-variables-(or-the-cached-ones)",
+                    z3.BoolVal(all(x == "EDGE-VARS" for x in calls) and me.edge_vars_sol in ({("x", "y", 0): 2.0}, {("a", "b", 0): 1.0}) and (cached or calls == ["EDGE-VARS"])), prop=P)
+            c.prove("post(auxiliary):solver-values-are-fetched-only-if-none-are-cached", z3.BoolVal(calls == ([] if cached else ["EDGE-VARS"])), prop=None)
+            if not isinstance(walks, SymSeq):
+                c.prove("post:no-layers=>no-walks", z3.And(k == 0, z3.BoolVal(len(walks) == 0)), prop=P)
+                return
+            j = z3.Int("pj")
+            c.prove("post:one-walk-per-layer,-in-layer-order,-each-the-reconstruction-of-its-own-layer",
+                    z3.And(walks.n == k, z3.ForAll([j], z3.Implies(z3.And(j >= 0, j < k), lift(walks._at(j)) == st["want"](j)))), prop=P)
+        return h
+
+    def new_list():
+        # the first `[]` is the result list; a later one is the literal empty walk appended for an empty residual dict
+        if st.get("first"):
+            st["first"] = False
+            return SymSeq(z3.IntVal(0), lambda j: Sym(z3.IntVal(0)), SInt, "walks")
+        return Sym(st["empty"])
+
+    hv = lambda old: SymSeq.fresh("walks", SInt)
+    loops = {0: dict(inv=inv, prop=P, havoc={"walks": hv}, keep=("residual_graph", "walk"))}
+    out = []
+    for cached in (False, True):
+        out.append(Unit(F, "AbstractWalkModelDiGraph.get_solution_walks", mk(cached), globs=dict(utils=UtilsStub), loops=loops, props=[P, "C01"], literals=dict(list=new_list),
+                        name="%s:AbstractWalkModelDiGraph.get_solution_walks[%s]" % (F, "values cached" if cached else "values not cached"),
+                        callee_contracts=["_build_residual_graph_for_layer, _reconstruct_eulerian_walk (own units)", "SolverWrapper.get_values (C12)"],
+                        abstractions=["a reconstructed walk is an opaque value per layer; the branch for an empty residual *dict* appends a literal [] (see unit text)"]))
+    return out
+
+
 def all_units():
-    return [u_residual(), u_closed_walk(), u_reconstruct()]
+    return [u_residual(), u_closed_walk(), u_reconstruct()] + u_solution_walks()
